@@ -151,7 +151,7 @@ def task_batch(task):
     for src in task["items"]:
         if src[0] == "gen":
             rng = random.Random(src[1])
-            w = gen.generate(rng, n_statements=rng.choice([2, 3, 4, 5, 6, 7, 8]), rows=rng.choice([0, 2, 3, 5]),
+            w = gen.generate(rng, n_statements=rng.choice([2, 3, 4, 5, 6, 7, 8, 9, 10, 12]), rows=rng.choice([0, 2, 3, 5]),
                              time_period=None)
             kw = {}
             if w["meta"]["time_period"]:
